@@ -96,6 +96,16 @@ def _t_pderiv(o):
 def _t_gmass(o):
     return [(0, 0, o.U0(1), o.U0(0), o.inp['g'])]
 
+def _t_lit(o):
+    return [(0, 0, o.U0(1), o.U0(0), 0.3333333333333333)] + [(0, 0, o.G(a, 1), o.G(a, 0), 3.141592653589793) for a in range(o.dim)] + \
+           [(0, 0, o.U0(1), o.G(0, 0), 1.234567891), (0, 0, o.G(1, 1), o.U0(0), 0.30000000000000004)]
+
+def _t_litr(o):
+    return [(0, 0, o.U0(1), o.U0(0), float(o.par['LIT']))]
+
+# literal constants whose shortest decimal representation needs many digits (a printer with fewer digits changes the form)
+LITERAL_POOL = [1.0 / 3.0, 3.141592653589793, 0.1 + 0.2, 1234567.891, 1.0000001e-07, 2.0 / 7.0, 1e5 / 3.0, 123456789.0, -0.7071067811865476]
+
 def _t_mass(o):
     return [(0, 0, o.U0(1), o.U0(0), 1.0)]
 
@@ -129,6 +139,9 @@ FORMS = {
     'matpar':   (2, 2, 'inner(K.dot(grad(u)), grad(v))*dx', None, False, {'K': 'par2'}, _t_matpar, False, 1),
     'funcphys': (2, 1, 'sin(g)*v.dx(1)*dx + g*v*dx', None, False, {'g': 'phys'}, _t_funcphys, True, 1),
     'pderiv':   (2, 2, 'Dx(u,0,parametric=True)*Dx(v,1,parametric=True)/f*dx + (abs(f)+sqrt(f))*u*v*dx', None, False, {'f': 'fieldp'}, _t_pderiv, True, 1),
+    'lit':      (2, 2, '0.3333333333333333*u*v*dx + 3.141592653589793*inner(grad(u),grad(v))*dx + 1.234567891*u.dx(0)*v*dx + 0.30000000000000004*u*v.dx(1)*dx',
+                 None, False, {}, _t_lit, False, 1),
+    'litr':     (2, 2, 'LIT*u*v*dx', None, False, {'_literal': True}, _t_litr, False, 0),
     'surf':     (2, 2, 'g*u*v*ds', None, False, {'g': 'phys', '_surface': True}, _t_gmass, False, 0),
     'bdry':     (2, 2, 'g*u*v*ds', None, False, {'g': 'phys', '_boundary': True}, _t_gmass, False, 0),
     # shipped precompiled assemblers (no compilation)
@@ -322,6 +335,7 @@ def make_case(name, seed, tier):
         kvs1 = kvs0
     geo, gkind = rand_geo(rng, dim, cylinder=bool(inputs.get('_cyl')))
     boundary = None
+    literal = LITERAL_POOL[int(rng.integers(0, len(LITERAL_POOL)))] if inputs.get('_literal') else None
     if inputs.get('_surface'):
         # graph surface over the perturbed parametrisation: third component a smooth bump
         from pyiga import bspline as _b
@@ -351,7 +365,7 @@ def make_case(name, seed, tier):
             a, b = [float(x) for x in rng.integers(1, 4, size=2)]
             args[nm] = (lambda a, b: (lambda *X: 1.0 + a * X[0] + b * X[1] * X[0]))(a, b)
             meta[nm] = (a, b)
-    return dict(dim=dim, arity=arity, kvs0=kvs0, kvs1=kvs1, geo=geo, gkind=gkind, args=args, meta=meta, rng=rng, boundary=boundary)
+    return dict(dim=dim, arity=arity, kvs0=kvs0, kvs1=kvs1, geo=geo, gkind=gkind, args=args, meta=meta, rng=rng, boundary=boundary, literal=literal)
 
 
 def instantiate(name, case):
@@ -362,7 +376,16 @@ def instantiate(name, case):
     if isinstance(problem, tuple):
         cls = getattr(assemblers, problem[1])
         return assemble.instantiate_assembler(cls, kvs, args, None)
+    problem = form_problem(name, case)
     return quiet_call(lambda: assemble.instantiate_assembler(problem, kvs, args, bfuns, case.get('boundary')))
+
+
+def form_problem(name, case):
+    """the form string of this instance (a drawn literal constant is written with repr(): Python's eval reads it back exactly)"""
+    problem = FORMS[name][2]
+    if isinstance(problem, str) and case.get('literal') is not None:
+        problem = problem.replace('LIT', repr(float(case['literal'])))
+    return problem
 
 
 def build_oracle(name, case, asm_nqp=None):
@@ -376,6 +399,8 @@ def build_oracle(name, case, asm_nqp=None):
     else:
         grid, gw = make_tensor_quadrature([kv.mesh for kv in kvs0], nqp)
     o = Oracle(dim, (kvs0, kvs1), case['geo'], nqp, grid, gw, boundary=case.get('boundary'))
+    if case.get('literal') is not None:
+        o.par['LIT'] = float(case['literal'])
     for nm, kind in FORMS[name][5].items():
         if nm.startswith('_'):
             continue
@@ -432,7 +457,7 @@ def worker(name, seed, tier):
     dim, arity, problem, bfuns, two_space, inputs, termf, transc, pmin = FORMS[name]
     t0 = time.time()
     case = make_case(name, seed, tier)
-    desc = {'form': problem if isinstance(problem, str) else problem[1], 'bfuns': bfuns, 'dim': dim,
+    desc = {'form': form_problem(name, case) if isinstance(problem, str) else problem[1], 'bfuns': bfuns, 'dim': dim,
             'kvs0': [(kv.kv.tolist(), kv.p) for kv in case['kvs0']], 'kvs1': [(kv.kv.tolist(), kv.p) for kv in case['kvs1']],
             'geometry': case['gkind'], 'geo_coeffs': np.asarray(case['geo'].coeffs).tolist(),
             'params': {k: np.asarray(v).tolist() for k, v in case['args'].items() if isinstance(v, (float, np.ndarray))},
@@ -825,6 +850,51 @@ def linear_stream(ctx):
     return len(req)
 
 
+def literal_stream(ctx):
+    """translator-style tie on the generated source (no C compiler): every constant of the finalized form must appear in the
+    emitted Cython code as a literal that reads back to exactly that double (float(text) == value)"""
+    import re
+    from pyiga import vform, compile as pcompile
+    num = re.compile(r'(?<![\w.])[-+]?(?:\d+\.\d*(?:[eE][-+]?\d+)?|\.\d+(?:[eE][-+]?\d+)?|\d+[eE][-+]?\d+|\d+)(?![\w.])')
+    todo = []
+    for name, F in FORMS.items():
+        dim, arity, problem, bfuns, two_space, inputs = F[:6]
+        if isinstance(problem, tuple):
+            continue
+        case = make_case(name, 4242, 'quick')
+        lits = LITERAL_POOL if inputs.get('_literal') else [None]
+        for lit in lits:
+            c2 = dict(case, literal=lit)
+            todo.append((form_problem(name, c2), (case['kvs0'], case['kvs1']) if two_space else case['kvs0'], case, bfuns))
+    nconst = 0; bad = []
+    for (problem, kvs, case, bfuns) in todo:
+        try:
+            vf = vform.parse_vf(problem, kvs, args=dict(case['args']), bfuns=bfuns, boundary=bool(case.get('boundary')))
+            src = pcompile.generate(vf)
+        except Exception as ex:
+            ctx.notes.append('literal stream: %s: %s' % (problem[:60], type(ex).__name__))
+            continue
+        body = src[src.index('cdef class'):]
+        toks = set()
+        for mo in num.finditer(body):
+            try:
+                toks.add(float(mo.group(0)))
+            except ValueError:
+                pass
+        toks |= {-t for t in toks}        # a sign may be printed as a separate NegExpr
+        for e in vf.all_exprs(type=vform.ConstExpr):
+            v = float(e.value)
+            nconst += 1
+            if v not in toks:
+                bad.append((problem, v))
+    ctx.count('generated-source literals checked', nconst)
+    for (problem, v) in bad[:3]:
+        ctx.violation('literal-roundtrip', 'the constant %r of form `%s` does not appear in the generated kernel source as a literal that reads back to the same double '
+                      '(the compiled assembler integrates a different form)' % (v, problem), {'form': problem, 'constant': repr(v), 'stream': 'literal'}, True)
+    ctx.obligation('generated source: %d constants of %d forms are emitted as literals with float(text) == value' % (nconst, len(todo)), not bad and nconst > 0, '%d do not round-trip' % len(bad))
+    return nconst
+
+
 def check_pxi(ctx):
     """genericasm.pxi (compiled into assemble_tools_cy) is the rendering of the template the model transliterates"""
     from pyiga.codegen import cython as cg
@@ -888,7 +958,7 @@ def run(ctx):
                 'knots, B-spline or NURBS perturbed-identity geometry; every entry vs numpy oracle, 200 no-common-support pairs exactly 0.0, 8-30 entries re-derived by the Lean model '
                 'from per-node integrand tables; non-trivial = instance with >= 2 spans on some axis' % len(FORMS))
     check_pxi(ctx)
-    nlay = layout_stream(ctx) + linear_stream(ctx)
+    nlay = layout_stream(ctx) + linear_stream(ctx) + literal_stream(ctx)
     results = join()
     sp10 = results.pop(); jobs.pop()
     req, meta = [], []
@@ -898,6 +968,13 @@ def run(ctx):
         if res is not None and res.get('status') == 'timeout':
             from .common import InfraError
             raise InfraError('worker for form %s timed out (machine overloaded?)' % name)
+        if res is not None and str(res.get('status', '')).startswith('crashed rc=-'):
+            import signal as _sig
+            sg = int(res['status'].split('rc=-')[1])
+            ctx.violation('impl-crash:%s' % (_sig.Signals(sg).name if sg in [x.value for x in _sig.Signals] else sg),
+                          'the interpreter was taken down by native code while assembling form instance %s (seed %s)' % (name, job['seed']),
+                          {'form': name, 'seed': job['seed'], 'stderr': (res.get('trace') or '')[-800:]}, True)
+            continue
         if res is None or res.get('status') not in ('ok', 'build-failed'):
             ctx.obligation('worker for form %s' % name, False, (res or {}).get('status', 'none') + ' ' + (res or {}).get('trace', '')[-500:])
             ctx.violation('worker:' + name, 'harness worker for form %s failed: %s' % (name, (res or {}).get('status')), {'trace': (res or {}).get('trace', '')}, False)
